@@ -97,6 +97,7 @@ type vkKernel struct {
 	failAdd       map[int]bool // fds for which EPOLL_CTL_ADD fails (fault injection)
 	connectImmediately bool   // connect(2) succeeds at once instead of EINPROGRESS
 	onNewSocket   func(f *vkFd) // harness hook: socket(2) created f
+	onConnect     func(f *vkFd) // harness hook: connect(2) on f is in progress
 	log           []string
 }
 
@@ -316,6 +317,9 @@ func vk_Connect(fd int, sa syscall.Sockaddr) error {
 		return nil
 	}
 	f.connecting = true
+	if vk.onConnect != nil {
+		vk.onConnect(f)
+	}
 	return syscall.EINPROGRESS
 }
 
